@@ -92,13 +92,19 @@ where
                 // left and right endpoints. I think in order to properly support self-overlapping
                 // segments we must return Ordering::Equal if and only if segments are the same
                 // by identity (the Rc::ptr_eq above).
+                #[cfg(feature = "verif-hooks")]
+                crate::verif::hit(crate::verif::Site::CsCollinearSameOperandSameLeft);
                 less_if(se_old_l.contour_id < se_new_l.contour_id)
             } else {
                 // Fallback to purely temporal-based comparison. Since `less_if` already
                 // encodes "earlier-is-less" semantics, no comparison is needed.
+                #[cfg(feature = "verif-hooks")]
+                crate::verif::hit(crate::verif::Site::CsCollinearSameOperand);
                 less_if(true)
             }
         } else {
+            #[cfg(feature = "verif-hooks")]
+            crate::verif::hit(crate::verif::Site::CsCollinearOtherOperand);
             less_if(se_old_l.is_subject)
         }
     } else {
